@@ -1,4 +1,5 @@
 import BeyondVerif.Model.Tle
+import BeyondVerif.Model.TleOrb
 
 /-!
 Kernel-checked facts (`decide`) about concrete inputs on which an earlier version of beyond/io/tle.py falsified a
@@ -62,5 +63,22 @@ theorem blank_drag_field_ends_generator :
     (match parseTle [l1BlankBstar, l2] with | .error .indexError => true | _ => false) = true ∧
     (fromString [l1BlankBstar, l2, m1, m2]).out = [] ∧ (fromString [l1BlankBstar, l2, m1, m2]).abort = some .indexError ∧
     ((fromString [m1, m2]).out.map (·.norad)) = [14] := by decide
+
+/-! ### catalogue numbers outside the quantifier (`Model/TleOrb.lean`; `Props/C12Orb.lean` proves the general statements) -/
+
+def refRec : Rec := { almostParabolic with ecc7 := 6703 }
+
+/-- an alpha-5 catalogue number is refused (`int("A0001")` fails although the line is well formed), a six-digit one makes
+the line 70 characters long, catalogue number 0 is written `00000` -/
+theorem alpha5_refused :
+    (match fromOrbitN "A0001".toList refRec with | .error .valueError => true | _ => false) = true ∧
+    (match fromOrbitN (intStr 100000) refRec with | .error (.size 1 70) => true | _ => false) = true ∧
+    (fromOrbitN (intStr 0) refRec).toOption.map (fun p => (p.norad, (p.text.head?.getD []).take 8)) = some (0, "1 00000U".toList) := by decide
+
+/-- a curiosity of `"{:0>5}"` and `int()`: the sign of a four-digit negative number fills the fifth column and is read back;
+shorter negative numbers get zeros in front of the sign and are refused -/
+theorem negative_norad :
+    (fromOrbitN (intStr (-1234)) refRec).toOption.map (·.norad) = some (-1234) ∧
+    (match fromOrbitN (intStr (-5)) refRec with | .error .valueError => true | _ => false) = true := by decide
 
 end BeyondVerif.C12W
